@@ -19,6 +19,7 @@ COMBOS = {
     "own_new": [["inst", "inst"], ["fields", "inst"]],
     "lazy_parent_split": [["inst", "pinst"], ["meta", "pmeta"], ["pinst", "fields"]],
     "mixin_new": [["sub", "sub"], ["sub", "inst"]],
+    "sub_new_forwards": [["inst", "inst"], ["inst", "meta"]],
     "plain_subclass": [["sub", "inst"], ["sub", "sub"], ["meta", "sub"]],
     "keyed_nested": [["inst", "inst"], ["inst", "fields"]],
 }
